@@ -609,6 +609,42 @@ theorem real_no_skip (recs : List (List Nat)) (hlen : recs.length ≤ realEnv.MA
   have h2 : realEnv.MAX ≤ realEnv.PRE := by decide
   omega
 
+/-! ### the api-level conversion in front of the lookup: bbs.UUserID.ToRaw -/
+
+theorem cstr_of_no_zero : ∀ (l : List Nat), (∀ c ∈ l, c ≠ 0) → cstr l = l := by
+  intro l
+  induction l with
+  | nil => intro _; rfl
+  | cons c cs ih =>
+    intro h
+    rw [cstr_cons]
+    have hc : c ≠ 0 := h c (by simp)
+    simp only [hc, if_false]
+    rw [ih (fun x hx => h x (List.mem_cons_of_mem _ hx))]
+
+/-- An id longer than IDLEN is REJECTED by the conversion, never cut to a stored prefix: the lookup that follows is always
+for the id that was asked for. -/
+theorem uuserToRaw_rejects_overlong (name : List Nat) (hlen : name.length > Gen.UHash.idLen)
+    (hsz : idSize = Gen.UHash.idLen + 1) (hnz : ∀ c ∈ name, c ≠ 0) : uuserToRaw name = none := by
+  unfold uuserToRaw copyInto
+  have htake : (name.take idSize).length = idSize := by rw [List.length_take]; omega
+  simp only [htake, Nat.sub_self, List.replicate_zero, List.append_nil]
+  have hnz' : ∀ c ∈ name.take idSize, c ≠ 0 := fun c hc => hnz c (List.mem_of_mem_take hc)
+  unfold idValid
+  simp only [cstr_of_no_zero _ hnz', htake]
+  have : idSize > Gen.UHash.idLen := by omega
+  simp [this]
+
+/-- the size hypothesis of `uuserToRaw_rejects_overlong` holds for the regenerated constants -/
+theorem real_idSize : idSize = Gen.UHash.idLen + 1 := by decide
+
+/-- witness for the broken rule (seed C04-r7-2: copy into the first IDLEN bytes only): "abcdefghijklX" (13 characters) is
+rejected by the real conversion and becomes the stored id "abcdefghijkl" under the cut -/
+example : uuserToRaw [97, 98, 99, 100, 101, 102, 103, 104, 105, 106, 107, 108, 88] = none ∧
+    (let cut := copyInto idSize ([97, 98, 99, 100, 101, 102, 103, 104, 105, 106, 107, 108, 88].take Gen.UHash.idLen)
+     idValid cut = true ∧ cstr cut = [97, 98, 99, 100, 101, 102, 103, 104, 105, 106, 107, 108]) := by
+  decide +kernel
+
 /-- NewSHM's handshake accepts exactly the expected Version and Size -/
 theorem handshake_ok_iff (v s wv ws : Int) : handshake v s wv ws = "ok" ↔ v = wv ∧ s = ws := by
   unfold handshake
